@@ -65,6 +65,25 @@ class Facts:
         return None
 
 
+def puts(op):
+    """the queries of a PUT /characteristics op: (connection, [(x, ev, val), ...]); None for other ops.
+    set_characteristics processes every `ev` member first, then the `value` members in order."""
+    if op[0] == "put":
+        return op[1], [(op[2], op[3], op[4])]
+    if op[0] == "putm":
+        return op[1], [tuple(q) for q in op[2]]
+    return None
+
+
+def wrote(op, p, x):
+    """value that #p writes to x with this op (None if it does not)"""
+    pq = puts(op)
+    if pq is None or pq[0] != p:
+        return None
+    vals = [v for qx, _ev, v in pq[1] if qx == x and v is not None]
+    return vals[-1] if vals else None
+
+
 def reuse_ok(ops) -> bool:
     """the address-reuse hypothesis holds on this script"""
     addr, lost, stopped = [], set(), False
@@ -153,7 +172,7 @@ def last_activity(f: Facts, p: int, upto_op: int, upto_t: int) -> int:
     last = f.t_before[f.connect_op[p]]
     for i in range(f.connect_op[p], upto_op):
         op = f.ops[i]
-        if op[0] in ("put", "get", "prepare", "snapshot", "bad_http", "bad_frame") and op[1] == p:
+        if op[0] in ("put", "putm", "get", "prepare", "snapshot", "bad_http", "bad_frame") and op[1] == p:
             last = max(last, f.t_before[i])
     for e in f.log.get(p, []):
         if e[1] in ("event", "resp") and (e[-1] < upto_op or e[0] < upto_t):
@@ -165,11 +184,14 @@ def own_subscriptions(f: Facts):
     """(p, x, op index) -> did #p itself subscribe to x (acknowledged) before that op and not unsubscribe since"""
     hist: Dict[Tuple[int, int], List[Tuple[int, bool]]] = {}
     for i, op in enumerate(f.ops):
-        if op[0] == "put" and op[3] is not None and op[1] in f.log:
-            p = op[1]
+        pq = puts(op)
+        if pq is not None and pq[0] in f.log and any(ev is not None for _x, ev, _v in pq[1]):
+            p = pq[0]
             ack = any(e[1] == "resp" and e[-1] == i and e[2] in (204, 207) for e in f.log[p])
             if ack:
-                hist.setdefault((p, op[2]), []).append((i, bool(op[3])))
+                for x, ev, _v in pq[1]:
+                    if ev is not None:
+                        hist.setdefault((p, x), []).append((i, bool(ev)))
 
     def q(p, x, opi):
         st = False
@@ -200,37 +222,35 @@ def changes_of(f: Facts):
     through the public characteristic values before/after each op"""
     res = []
     for i, op in enumerate(f.ops):
-        worker = False
-        if op[0] == "app_set":
-            x, v, who = op[1], op[2], None
-        elif op[0] == "app_set_thread":
-            x, v, who, worker = op[1], op[2], None, True
-        elif op[0] == "put" and op[4] is not None:
-            p = op[1]
-            if p not in f.log:
-                continue
-            if not any(e[1] == "resp" and e[-1] == i and e[2] == 204 for e in f.log[p]):
-                continue  # not acknowledged (unverified, closed connection, ...)
-            x, v, who = op[2], op[4], p
-        else:
-            continue
         before = f.values_before(i)
-        if x in f.nul:
-            changed = True  # stored value is always null: every set notifies
-        else:
-            changed = before is None or before[x] != v
-        if changed:
-            res.append((i, x, v, who, worker))
-        if op[0] == "put" and x in f.cb:
-            # what the application's callback does inside the write is an application change
-            # (originator none), judged by VALUE CHANGE as the property says
-            cb = f.cb[x]
-            cur = dict(enumerate(before)) if before is not None else {}
+        if op[0] in ("app_set", "app_set_thread"):
+            x, v = op[1], op[2]
+            if x in f.nul or before is None or before[x] != v:
+                res.append((i, x, v, None, op[0] == "app_set_thread"))
+            continue
+        pq = puts(op)
+        if pq is None or pq[0] not in f.log:
+            continue
+        p = pq[0]
+        if not any(e[1] == "resp" and e[-1] == i and e[2] == 204 for e in f.log[p]):
+            continue  # not acknowledged (unverified, closed connection, ...)
+        cur = dict(enumerate(before)) if before is not None else {}
+        for x, _ev, v in pq[1]:  # the value members, in request order
+            if v is None:
+                continue
+            if x in f.nul or cur.get(x) != v:
+                res.append((i, x, v, p, False))
             cur[x] = v
-            if cb[0] == "set_to" and (x in f.nul or cb[1] != v):
-                res.append((i, x, cb[1], None, False))
-            elif cb[0] == "set_other" and (cb[1] in f.nul or cur.get(cb[1]) != cb[2]):
-                res.append((i, cb[1], cb[2], None, False))
+            if x in f.cb:
+                # what the application's callback does inside the write is an application change
+                # (originator none), judged by VALUE CHANGE as the property says
+                cb = f.cb[x]
+                if cb[0] == "set_to" and (x in f.nul or cb[1] != v):
+                    res.append((i, x, cb[1], None, False))
+                    cur[x] = cb[1]
+                elif cb[0] == "set_other" and (cb[1] in f.nul or cur.get(cb[1]) != cb[2]):
+                    res.append((i, cb[1], cb[2], None, False))
+                    cur[cb[1]] = cb[2]
     return res
 
 
@@ -295,11 +315,11 @@ def oracle_c12(f: Facts) -> List[Tuple[str, str]]:
                     continue
                 j = last_changes[-1][0]
                 # subscribed without interruption since (and at) the last change
-                if not own_sub(p, x, j + 1 if (f.ops[j][0] == "put" and f.ops[j][1] == p) else j):
+                if not own_sub(p, x, j + 1 if (puts(f.ops[j]) is not None and puts(f.ops[j])[0] == p) else j):
                     continue
                 if any(a not in f.dig[k]["topics"].get(x_s, []) for k in range(max(j - 1, 0), i + 1)):
                     continue
-                if any(f.ops[k][0] == "put" and f.ops[k][1] == p and f.ops[k][2] == x and f.ops[k][3] is False for k in range(j, i + 1)):
+                if any(puts(f.ops[k]) is not None and puts(f.ops[k])[0] == p and any(qx == x and ev is False for qx, ev, _v in puts(f.ops[k])[1]) for k in range(j, i + 1)):
                     continue
                 learned, src = learned_value(f, p, x, i)
                 cur = d["values"][x]
@@ -309,7 +329,7 @@ def oracle_c12(f: Facts) -> List[Tuple[str, str]]:
                         sig = WORKER_SIG
                     elif src is not None and src[0] == "event":
                         # an event that arrived after a later own acknowledged write of another value
-                        own = [k for k in range(f.n) if k < src[1] and f.ops[k][0] == "put" and f.ops[k][1] == p and f.ops[k][2] == x and f.ops[k][4] is not None and f.ops[k][4] != learned]
+                        own = [k for k in range(f.n) if k < src[1] and wrote(f.ops[k], p, x) is not None and wrote(f.ops[k], p, x) != learned]
                         stale = [c for c in chg if c[1] == x and c[2] == learned and c[3] != p]
                         if own and stale and stale[-1][0] < own[-1]:
                             sig = "C12:originator-stale-event-after-own-write"
@@ -372,7 +392,7 @@ def learned_value(f: Facts, p: int, x: int, upto: int, after: int = -1):
                 if ex == x:
                     val, src = ev, ("event", e[-1])
         elif e[1] == "resp" and e[2] == 204:
-            op = f.ops[e[-1]]
-            if op[0] == "put" and op[1] == p and op[2] == x and op[4] is not None:
-                val, src = op[4], ("own-write", e[-1])
+            w = wrote(f.ops[e[-1]], p, x)
+            if w is not None:
+                val, src = w, ("own-write", e[-1])
     return val, src
